@@ -189,6 +189,27 @@ pub fn drive(a: &Args) {
             pair_ops(&mut out, c, d);
         }
     }
+    // inter_list on lists of every length 0..24: nested staircases (the result is the innermost set), the same with one
+    // disjoint set at each position, and chains of overlapping sets with an empty overall intersection
+    for n in 0..=24u32 {
+        let stairs: Vec<Iv> = (0..n).map(|k| Iv(100 + k, 200 - k)).collect();
+        list_op(&mut out, &stairs);
+        let mut rev = stairs.clone();
+        rev.reverse();
+        list_op(&mut out, &rev);
+        for pos in [0usize, (n / 2) as usize, n as usize] {
+            if pos <= stairs.len() {
+                let mut l = stairs.clone();
+                l.insert(pos, Iv(300, 310));
+                list_op(&mut out, &l);
+                let mut l2 = stairs.clone();
+                l2.insert(pos, Iv(150, 150));
+                list_op(&mut out, &l2);
+            }
+        }
+        let chain: Vec<Iv> = (0..n).map(|k| Iv(10 * k, 10 * k + 14)).collect();
+        list_op(&mut out, &chain);
+    }
     let n = out.finish();
     println!("{{\"family\":\"charsets\",\"events\":{}}}", n);
 }
